@@ -45,19 +45,23 @@ Definition toy_lv (s : nat) (v : pv) : bool :=
   | _, _ => false
   end.
 
-(* class 0: @dataclass N0: a: int; b: Optional[N0] = None      class 1: TypedDict N1: a: str
+(* class 0: @dataclass N0: a: int; b: Optional[N0] = None      class 1: TypedDict N1: a: str; b: NotRequired[int]
    name 2 : alias  list[N0]                                       class 3: NamedTuple N3: a: float; b: tuple[int, str] *)
 Definition toy_E : env := fun n =>
   match n with
   | 0 => Some (NClass {| cflavour := FDataclass;
                          cfields := [ {| fname := 0; fty := TLeaf 0; fdefault := None |};
-                                      {| fname := 1; fty := TUnion [TName 0; TNone]; fdefault := Some toy_none |} ] |})
+                                      {| fname := 1; fty := TUnion [TName 0; TNone]; fdefault := Some toy_none |} ];
+                         crequired := [] |})
   | 1 => Some (NClass {| cflavour := FTypedDict;
-                         cfields := [ {| fname := 0; fty := TLeaf 2; fdefault := None |} ] |})
+                         cfields := [ {| fname := 0; fty := TLeaf 2; fdefault := None |};
+                                      {| fname := 1; fty := TLeaf 0; fdefault := None |} ];
+                         crequired := [0] |})
   | 2 => Some (NType (TSeq KList (TName 0)))
   | 3 => Some (NClass {| cflavour := FNamedTuple;
                          cfields := [ {| fname := 0; fty := TLeaf 1; fdefault := None |};
-                                      {| fname := 1; fty := TTuple [TLeaf 0; TLeaf 2]; fdefault := None |} ] |})
+                                      {| fname := 1; fty := TTuple [TLeaf 0; TLeaf 2]; fdefault := None |} ];
+                         crequired := [] |})
   | _ => None
   end.
 Definition toy_names : list nat := [0; 1; 2; 3].
@@ -68,7 +72,7 @@ Definition toy_T : ty :=
 Definition toy_v : pv :=
   PSeq KTuple
     [ PSeq KList [ PObj 0 [(0, PAtom 3); (1, PObj 0 [(0, PAtom 2); (1, PAtom 4)])] ];
-      PDict KDict [ (PAtom 0, PDict KDict [(PKey 0, PAtom 0)]); (PKey 0, PDict KDict []) ];
+      PDict KDict [ (PAtom 0, PDict KDict [(PKey 0, PAtom 0)]); (PKey 0, PDict KDict [(PKey 1, PAtom 3); (PKey 0, PKey 1)]) ];
       PNamed 3 [ PAtom 1; PSeq KTuple [PAtom 2; PKey 1] ];
       PSeq KFrozenset [PAtom 3; PAtom 2] ].
 
@@ -85,6 +89,7 @@ Definition no_E : env := fun _ => None.
 Definition bad_default_E : env := fun n =>
   match n with
   | 0 => Some (NClass {| cflavour := FDataclass;
-                         cfields := [ {| fname := 0; fty := TLeaf 0; fdefault := Some toy_none |} ] |})
+                         cfields := [ {| fname := 0; fty := TLeaf 0; fdefault := Some toy_none |} ];
+                         crequired := [] |})
   | _ => None
   end.
